@@ -4,8 +4,7 @@
   block inside a list item, a fence, an indented code block with interior blank lines - is well-formed by kernel
   evaluation; the theorems apply to it; evaluating the model on the written text in the kernel, independently of the
   theorems, gives the same HTML; the real `mistletoe.markdown` returns this string for this text.  Then what the predicate
-  rejects, the check that every small delimiter row has the facts `drowOk` asks for, and the inputs on which model and
-  implementation differ from the GFM / CommonMark documents.
+  rejects and accepts, and the inputs on which model and implementation differ from the GFM / CommonMark documents.
 -/
 import Mistletoe.Proofs.ComposeTable
 namespace Mistletoe.ComposeT
@@ -122,8 +121,8 @@ example : blocks4 1 [.leaf (.table ⟨true, true, [L " a ", L " b ", L " c "]⟩
          .tableCell none [.rawText (L "4")] 4] 4] 1] := rfl
 
 /-- the content of the last code block of the sample: every line minus four columns; "  \n" gives "\n" -/
-example : codeContent [L "    code <1>\n", L "\n", L "      more  \n", L "  \n", L "      \n", L "    last\n"] =
-    L "code <1>\n\n  more  \n\n  \nlast\n" := by decide +kernel
+example : blocks4 26 [.leaf (.icode [L "    code <1>\n", L "\n", L "      more  \n", L "  \n", L "      \n", L "    last\n"])] =
+    [.blockCode (L "code <1>\n\n  more  \n\n  \nlast\n") 26] := rfl
 
 /-! ### What the predicate rejects -/
 
@@ -162,22 +161,16 @@ example : T4.ok (.list false 0 '-' 1 true [[.para [L "a\n"], .leaf (.icode [L " 
     T4.ok (.list false 0 '-' 1 true [[.para [L "a\n"], .leaf (.icode [L "    a\n", L "\n", L "    b\n"])]]) = true := by
   refine ⟨?_, ?_⟩ <;> decide +kernel
 
-/-! ### Every small delimiter row has the facts `drowOk` asks for
+/-! ### The delimiter row
 
-  `drowOk` asks for the shape (cells of spaces, optional colon, one or more hyphens, optional colon, spaces; a pipe
-  somewhere) and, as facts about the scanners, that `Table.delimiter_row_pattern` matches and that `findall` +
-  `parse_align` give the cells' alignments.  Here: all 4,224 rows of one or two cells with padding 0 - 1 and one or two
-  hyphens, in the four spellings of the outer pipes, that have a pipe, have these facts. -/
+  `drowOk` asks only for the shape; that the scanners accept every row of the shape is proved in `Proofs/ComposeTable.lean`
+  (`delimiterRow_line`, `findAligns_line`, `mapRes_cores`).  Instances: -/
 
-def smallCells : List DCell :=
-  [0, 1].flatMap fun l => [false, true].flatMap fun cl => [1, 2].flatMap fun n => [false, true].flatMap fun cr =>
-    [0, 1].map fun r => ⟨l, cl, n, cr, r⟩
-
-def smallRows : List DRow :=
-  [false, true].flatMap fun lead => [false, true].flatMap fun trail =>
-    (smallCells.map fun c => ⟨lead, trail, [c]⟩) ++ (smallCells.flatMap fun c => smallCells.map fun c' => ⟨lead, trail, [c, c']⟩)
-
-example : smallRows.length = 4224 ∧ smallRows.all (fun d => !d.line.contains '|' || drowOk d) = true := by decide +kernel
+example : (DRow.mk true false [⟨3, true, 1, false, 0⟩, ⟨0, false, 4, true, 2⟩, ⟨0, true, 2, true, 0⟩]).line = L "|   :-|----:  |:--:\n" := by
+  decide +kernel
+example : delimiterRow (L "|   :-|----:  |:--:\n") = true ∧ findAligns (L "|   :-|----:  |:--:\n") = [L ":-", L "----:", L ":--:"] ∧
+    (DRow.mk true false [⟨3, true, 1, false, 0⟩, ⟨0, false, 4, true, 2⟩, ⟨0, true, 2, true, 0⟩]).aligns = [none, some 1, some 0] := by
+  decide +kernel
 
 /-! ### Findings: where implementation (and model) leave the GFM / CommonMark documents
 
@@ -206,12 +199,13 @@ example : Config.renderHtml {} 100 (L "| a |\n|---|\nbar\n") =
     some (L "<table>\n<thead>\n<tr>\n<th align=\"left\">a</th>\n</tr>\n</thead>\n<tbody>\n</tbody>\n</table>\n<p>bar</p>\n") := by
   decide +kernel
 
-/-- **A line of four or more spaces between blank lines is a code block.**  CommonMark: an indented code block is made of
-    indented chunks separated by blank lines, a chunk being a sequence of NON-BLANK lines; a whitespace-only line is a
-    blank line and is ignored here (`<p>a</p>`, `<p>b</p>`).  `BlockCode.start` only asks for four leading spaces, so the
-    line opens a code block whose content is "\n".  (The writer never produces such a line outside a code block, and
-    `Leaf.ok` asks for a visible character on the first line.) -/
-example : Config.renderHtml {} 100 (L "a\n\n    \n\nb\n") = some (L "<p>a</p>\n<pre><code>\n</code></pre>\n<p>b</p>\n") := by
+/-- **A line of four or more spaces between blank lines is a blank line** (repaired in /repo by 0b09465).  CommonMark: an
+    indented code block is made of indented chunks separated by blank lines, a chunk being a sequence of NON-BLANK lines; a
+    whitespace-only line is a blank line and is ignored here (`<p>a</p>`, `<p>b</p>`).  The pinned `BlockCode.start` only
+    asked for four leading spaces, so the line opened a code block whose content is "\n" (`<pre><code>\n</code></pre>`
+    between the two paragraphs: this example used to record that finding); it now asks for a visible character as well, and
+    model and implementation return the two paragraphs. -/
+example : Config.renderHtml {} 100 (L "a\n\n    \n\nb\n") = some (L "<p>a</p>\n<p>b</p>\n") := by
   decide +kernel
 
 #print axioms C03_table_block_phase_partial
